@@ -454,7 +454,7 @@ http_req_sec_chk(const uint8_t *http_hdr, size_t hdr_size, uint32_t method_code)
 int
 http_parse_req_line(const uint8_t *http_hdr, size_t hdr_size,
     http_req_line_data_p req_data) {
-	const uint8_t *line, *ptm, *pspace;
+	const uint8_t *line, *ptm, *pspace, *pq;
 	size_t line_size, tm;
 
 	if (NULL == http_hdr || 10 >= hdr_size || NULL == req_data)
@@ -506,6 +506,11 @@ http_parse_req_line(const uint8_t *http_hdr, size_t hdr_size,
 			req_data->host = (ptm + 3);
 			ptm = mem_chr_ptr(req_data->host,
 			    req_data->uri, req_data->uri_size, '/');
+			pq = mem_chr_ptr(req_data->host,
+			    req_data->uri, req_data->uri_size, '?');
+			if (NULL != pq && (NULL == ptm || pq < ptm)) {
+				ptm = pq; /* Empty path: authority ends at query. */
+			}
 			if (NULL == ptm) {
 				ptm = pspace; // = (req_data->uri + req_data->uri_size);
 			}
@@ -515,7 +520,7 @@ http_parse_req_line(const uint8_t *http_hdr, size_t hdr_size,
 		}
 		/* abs_path */
 		/* Skip slash~s from head. */
-		while (ptm < (pspace - 1) && '/' == ptm[1]) {
+		while (ptm < (pspace - 1) && '/' == ptm[0] && '/' == ptm[1]) {
 			ptm ++;
 		}
 		req_data->abs_path = ptm;
